@@ -11,6 +11,7 @@ import (
 	"math/big"
 	"os"
 	"strconv"
+	"strings"
 	"time"
 )
 
@@ -269,3 +270,19 @@ func Chars(label string, n int) string {
 	}
 	return string(b)
 }
+
+// ResetLabels makes the following inputs coincide with the inputs created so far under the
+// same labels (symbolic: same symbols; native: same model values): two worlds can be built
+// from one arbitrary pre-state.
+func ResetLabels() { counters = map[string]int{} }
+
+// Exposes reports whether sink reveals secret. Symbolic: some input symbol of the secret occurs
+// in the sink term outside every one-way hash application (the standard symbolic-cryptography
+// reading). Native: the secret is a non-empty substring of the sink.
+func Exposes(sink, secret string) bool {
+	return secret != "" && strings.Contains(sink, secret)
+}
+
+// ExposesBeyond is Exposes for a secret that embeds a public part (e.g. the account identifier
+// inside a remember-me cookie): only the rest of the secret counts. Native: as Exposes.
+func ExposesBeyond(sink, secret, public string) bool { return Exposes(sink, secret) }
